@@ -13,3 +13,5 @@ import Dm.Props.C08
 #print axioms Dm.Props.C08.mapM_length
 #print axioms Dm.Props.C08.mapM_forall
 #print axioms Dm.Props.C08.intoKind_fields
+#print axioms Dm.Props.C08.mapM_getElem
+#print axioms Dm.Props.C08.explicit_variant_anywhere_switches_off
